@@ -296,6 +296,87 @@ def tcp (a : List String) (obs : String) : Verdict :=
     | _, _, _, _ => { model := "bad-arg" }
   | _ => { model := "bad-arg" }
 
+/-! ### rcon.dial — the real DialRCON against a scripted peer -/
+
+/-- the id a script item stands for, relative to the request id `R` of the login frame (as in the harness) -/
+def resolveID (mode : String) (R : BitVec 32) : Option (BitVec 32) :=
+  if mode == "same" then some R
+  else if mode == "neg1" then some (-1#32)
+  else if mode.startsWith "add" then (mode.drop 3).toString.toNat?.map fun k => R + BitVec.ofNat 32 k
+  else if mode.startsWith "abs" then (p8 (mode.drop 3).toString).map fun v => if v != -1#32 && v == R then v + 1#32 else v
+  else none
+
+/-- the bytes the scripted server sends; frames laid out from the protocol description (`specFrame`) -/
+def scriptBytes (script : String) (R : BitVec 32) : Option Bytes :=
+  if script == "-" then some [] else
+  (script.splitOn ",").foldlM (fun acc it =>
+    match it.splitOn "/" with
+    | ["f", m, t, pl] => do
+      let id ← resolveID m R; let typ ← p8 t; let p ← parseHex pl
+      pure (acc ++ specFrame id typ p)
+    | ["t", m, t, pl, cut] => do
+      let id ← resolveID m R; let typ ← p8 t; let p ← parseHex pl; let n ← cut.toNat?
+      pure (acc ++ (specFrame id typ p).take n)
+    | ["raw", h] => do let b ← parseHex h; pure (acc ++ b)
+    | _ => none) []
+
+/-- model of one dial under a concrete request id: the client's login flow on the server's bytes -/
+def dialUnder (R : BitVec 32) (pw : Bytes) (script : String) : Option (Bool × String) :=
+  if script.startsWith "x" then
+    let (r, _) := GoMC.Model.RCON.clientLogin pw { inp := Stream.ofBytes [], reqID := R }
+    some (resTag r == "ok", s!"dial={resTag r} seen=none rsign=?")
+  else
+    -- what the server sees: the login frame the model writes, split by the reference reader
+    let (_, c1) := GoMC.Model.RCON.clientLoginSend pw { inp := Stream.ofBytes [], reqID := R }
+    match GoMC.Spec.RCON.parse c1.out with
+    | some (lp, _) =>
+      (scriptBytes script R).map fun sb =>
+        let (r, _) := GoMC.Model.RCON.clientLogin pw { inp := Stream.ofBytes sb, reqID := R }
+        (resTag r == "ok", s!"dial={resTag r} seen={hexOfNat 8 lp.typ}:{hexOfBytes lp.payload} rsign=+")
+    | none =>
+      -- an oversize password: the server refuses the size word and closes without an answer
+      let (r, _) := GoMC.Model.RCON.clientLogin pw { inp := Stream.ofBytes [], reqID := R }
+      some (resTag r == "ok", s!"dial={resTag r} seen=big rsign=?")
+
+/-- rcon.dial pw script => dial=ok|err seen=<type>:<payload>|big|none rsign=+|-|?
+The request id is drawn by the implementation (`rand.Int31`), so the model is evaluated under two unrelated
+request ids; ids given relative to it (`same`, `add<k>`) behave identically under both, and raw bytes can hit at
+most one of them by accident, in which case the refusing evaluation is the generic one. -/
+def dial (a : List String) (obs : String) : Verdict :=
+  match a with
+  | [ps, script] =>
+    match parseHex ps with
+    | some pw =>
+      match dialUnder 0x5A17C3E9#32 pw script, dialUnder 0x2B7E1516#32 pw script with
+      | some (ok1, m1), some (ok2, m2) =>
+        let model := if ok1 == ok2 then m1 else if ok1 then m2 else m1
+        -- property: an authenticated client only for a legal first frame under the client's own request id;
+        -- decided by the reference reader on the reference layout, independent of the model
+        let R := 0x5A17C3E9#32
+        let want : Option Bool :=
+          if script.startsWith "x" || !validSize pw then some false else
+          match scriptBytes script R, scriptBytes script 0x2B7E1516#32 with
+          | some sb, some sb2 =>
+            let acc (bs : Bytes) (R : BitVec 32) : Bool := match GoMC.Spec.RCON.parse bs with
+              | some (p, _) => p.id == R.toNat
+              | none => false
+            some (acc sb R && acc sb2 0x2B7E1516#32)
+          | _, _ => none
+        let toks := obs.splitOn " "
+        let spec : Option String :=
+          if obs == "hang" || obs == "panic" then some ("DialRCON " ++ obs)
+          else match want, kv toks "dial" with
+            | some w, some d =>
+              if d == "ok" && !w then some "DialRCON returned an authenticated client although the login response is not a legal frame under the request id it sent"
+              else if d == "err" && w then some "DialRCON refused a login response carrying its own request id"
+              else if kv toks "rsign" == some "-" then some "DialRCON drew a negative request id"
+              else none
+            | _, _ => none
+        { model, spec }
+      | _, _ => { model := "bad-arg" }
+    | none => { model := "bad-arg" }
+  | _ => { model := "bad-arg" }
+
 def handle (opn : String) (args : List String) (obs : String) : Option Verdict :=
   match opn with
   | "rcon.write" => some (write args obs)
@@ -304,6 +385,7 @@ def handle (opn : String) (args : List String) (obs : String) : Option Verdict :
   | "rcon.op" => some (op args obs)
   | "rcon.sess" => some (sess args obs)
   | "rcon.tcp" => some (tcp args obs)
+  | "rcon.dial" => some (dial args obs)
   | _ => none
 
 end Driver.C16
